@@ -506,7 +506,10 @@ func reqCases(c *Cfg, r *Rng) {
 			seen := map[int]bool{}
 			var out [][2]int
 			for _, e := range reqs {
-				if !seen[e[0]] && e[0] != 0 {
+				// a requirement on the main module's own path (at a published
+				// version: a requirement cycle through the main module) is kept:
+				// the versionless main module must still win
+				if !seen[e[0]] && !(e[0] == 0 && k[0] == 0) {
 					seen[e[0]] = true
 					out = append(out, e)
 				}
